@@ -213,7 +213,7 @@ class World:
         # std algorithms as loops, new helpers inlined (lib/norm_c12.py); the names below are the vocabulary the rules read by name
         self.norm = norm_c12.Normaliser(self.findex, keep=KEEP, else_of_return=(r"Geometry::PartiIterative<.*>::build_elems_at_rank$",))
         for fn in self.fns:
-            if re.search(r"kernel/geometry/(patch_|parti_|mesh_node|intern/patch_index)", fn.file):
+            if re.search(r"kernel/geometry/(patch_|parti_|mesh_node|intern/patch_index|intern/target_set_computer)", fn.file):
                 try:
                     self.norm.apply(fn)
                 except Exception as ex:          # a construct the normaliser trips over is "not modelled", never a crash of the check
@@ -486,7 +486,27 @@ def rule_parti(w):
             unclear.append("_success has no initialiser in the constructor's initialiser list (default member initialiser / body assignment: not read)")
         elif render(strip(init[0].init)) != "false":
             problems.append("_success is not initialised to false")
-        if len(sets) == 1 and render(strip(sets[0].node["rhs"])) != "true":
+        direct_cmp = None
+        if len(sets) == 1 and render(strip(sets[0].node["rhs"])) != "true" and not sets[0].frames:
+            # `_success = (count == _num_ranks);` - the flag IS the comparison
+            c_ = strip(sets[0].node["rhs"])
+            nr_ = fk.norm(fk.fields.get("this._num_ranks", Lin.atom("this._num_ranks")))
+            if c_.get("k") == "Bin" and c_.get("op") in ("==", ">=", "<=", ">", "<", "!="):
+                for a_, b_ in ((c_["lhs"], c_["rhs"]), (c_["rhs"], c_["lhs"])):
+                    sb_ = fk.size(b_)
+                    if sb_ is not None and fk.norm(sb_) == nr_ and strip(a_).get("k") == "Ref" and strip(a_).get("dk") == "local":
+                        direct_cmp = strip(a_)["n"]
+                        if c_["op"] != "==":
+                            problems.append("_success is the comparison `%s`: success must mean count == _num_ranks exactly (for other rank counts the element blocks per rank do not "
+                                            "add up to the refined mesh)" % render(c_)[:50])
+        if direct_cmp is not None:
+            muts = [e for e in fk.events if e.kind == "scalar" and e.name == direct_cmp]
+            decl = [n for n in fn.nodes() if n.get("k") == "Var" and n.get("n") == direct_cmp]
+            okc = bool(decl) and decl[0].get("init") is not None and fk.size(decl[0]["init"]) is not None and \
+                fk.norm(fk.size(decl[0]["init"])) == fk.norm(fk.fields.get("this._num_elems", Lin.atom("this._num_elems"))) and all(e.op == "*=" for e in muts)
+            if not okc:
+                problems.append("the compared count is not the element count multiplied up by the refinement factor")
+        elif len(sets) == 1 and render(strip(sets[0].node["rhs"])) != "true":
             unclear.append("_success is assigned the expression %s, not the literal true under a guard" % render(strip(sets[0].node["rhs"]))[:60])
         elif len(sets) != 1:
             if len(sets) == 0 and elsewhere(fk, ("this._success",), names=C12NAMES):
@@ -2112,11 +2132,19 @@ def rule_deduct_ascending(w):
                             "first-encounter order of the parent entities instead of ascending base order; halo lists built from it (patch-local order) then differ between the two "
                             "neighbours of an irregular patch pair" % (st.val_canon, " > ".join(lp.canon for lp in lps)))
         # the compaction copy into the final target set is the identity
-        copies = [e for e in fk.events if e.kind == "sub" and e.mode == "write" and e is not st and e.val_canon is not None and e.val_canon.startswith(st.arr.key + "[")]
+        srcs = (st.arr.key + "[", st.arr.key + ".get_indices()[")
+        copies = [e for e in fk.events if e.kind == "sub" and e.mode == "write" and e is not st and e.val_canon is not None and e.val_canon.startswith(srcs)]
         for e in copies:
-            if e.val_canon != "%s[%s]" % (st.arr.key, e.idx_canon):
+            if e.val_canon not in ("%s[%s]" % (st.arr.key, e.idx_canon), "%s.get_indices()[%s]" % (st.arr.key, e.idx_canon)):
                 problems.append("the collected entities are copied as %s[%s] = %s (not position by position)" % (e.arr.key, e.idx_canon, e.val_canon))
-        if not copies and not elsewhere(fk, (st.arr.key,), names=C12NAMES):
+        if not copies:
+            # a MISSING copy: definite only if the list is handed to nothing that could copy it (any call that receives it, also by const reference, a move, an assignment)
+            takers = [e for e in fk.events if e.kind in ("call", "obj-assign") and e.seq > st.seq and any(
+                x.get("k") == "Ref" and x.get("n") == st.arr.key for a_ in ([e.get("rhs")] if e.kind == "obj-assign" else e.node.get("a", [])) if a_ is not None for x in walk(a_))]
+            if takers or elsewhere(fk, (st.arr.key,), names=C12NAMES):
+                ck.incomplete(R, "%s: no element-wise copy of %s found, but it is handed to %s (line %s), which is not read" % (
+                    name, st.arr.key, (takers[0].get("name") or "an assignment") if takers else "a helper", takers[0].node.get("l") if takers else "?"))
+                continue
             problems.append("the collected list %s is never copied into the target set" % st.arr.key)
         ck.ob(R, name, not problems, "; ".join(problems) if problems else
               "marked base entities are appended in the order of the ascending loop %s (counter %s from 0, one advance per entity) and copied position by position" % (lps[0].canon, ix["n"]),
